@@ -26,6 +26,11 @@ THEOREMS = [
     "C19.group_log_wellformed",
     "C19.group_log_monotone",
     "C19.sync_duration_drops_element",
+    "C19.stepD_eq_step",
+    "C19.runD_eq_run",
+    "C19.group_announced_before_duration_before_element",
+    "C19.derived_duration_counts",
+    "C19.derived_duration_expires_with_element",
 ]
 
 SUB_AT = 200
@@ -64,7 +69,7 @@ def model_request(case):
     durs = case["durs"] if case["op"] == "grp_until" else []
     return {"op": "grp_run", "events": evs, "key": case["key"], "elem": case["elem"],
             "subj_raise": case["subj_raise"], "dur_raise": case["dur_raise"] if case["op"] == "grp_until" else [],
-            "dsync": [d.get("sync") for d in durs], "imm": case["imm"]}
+            "dsync": [d.get("sync") for d in durs], "dgrp": [d.get("grp") for d in durs], "imm": case["imm"]}
 
 
 # ------------------------------------------------------------------------------------------ real code
@@ -220,6 +225,8 @@ def impl(case):
         if "sync" in d:
             n = d["sync"]
             return rx.empty() if n[0] == "C" else (rx.return_value(0) if n[0] == "N" else rx.throw(InjectedError(n[1])))
+        if "grp" in d:       # duration derived from the group itself: fires on its (n+1)-th element
+            return dgroup.pipe(ops.take(1)) if d.get("style") == "take" and d["grp"] == 0 else dgroup.pipe(ops.skip(d["grp"]))
         return rx.never()
 
     def subscribe_group(g):
@@ -439,9 +446,13 @@ def gen_group(rng):
     durs = []
     if until:
         allow_sync = rng.random() < 0.15
+        derived = rng.random() < 0.25
         for g in range(rng.choice([1, 2, 3, 4, 6, 8])):
             r = rng.random()
-            if r < 0.2:
+            if derived and rng.random() < 0.7:
+                n = rng.choice([0, 0, 1, 1, 2, 3])
+                durs.append({"grp": n, "style": rng.choice(["skip", "take"]) if n == 0 else "skip"})
+            elif r < 0.2:
                 durs.append({"never": 1})
             elif allow_sync and r < 0.4:
                 durs.append({"sync": rng.choice([["C"], ["N", 0], ["N", 0], ["E", f"dsync{g}"]])})
@@ -754,6 +765,10 @@ def oracle_group(case, out):
                 ok = True          # its duration fired
             if "sync" in d and d["sync"][0] in ("N", "C") and t == created_at[g]:
                 ok = True
+            if "grp" in d:      # group-derived duration: exactly after the (n+1)-th element, in the same instant
+                ns = [m for m in glog[g] if m[1][0] == "N"]
+                if len(ns) == d["grp"] + 1 and ns[-1][0] == t and glog[g][-2:] == [ns[-1], [t, n]]:
+                    ok = True
         if first_term is not None and first_term[0] == t and first_term[1] == n:
             ok = True              # the source's terminal
         if n[0] == "E" and (t, n[1]) in fail_names:
@@ -785,6 +800,14 @@ def oracle_group(case, out):
             if fire is not None and fire[1][0] != "E" and (src_end is None or fire[0] < src_end):
                 if g not in closed or closed[g][0] > fire[0]:
                     return f"duration of group #{g} fired @{fire[0]} but the group ended {closed.get(g)}"
+    for g in glog:
+        d = durs[g] if g < len(durs) else {"never": 1}
+        if "grp" in d:
+            ns = [m for m in glog[g] if m[1][0] == "N"]
+            if len(ns) > d["grp"] + 1:
+                return f"group #{g} (duration = group.skip({d['grp']})) received {len(ns)} elements, it must expire with its {d['grp'] + 1}-th"
+            if len(ns) == d["grp"] + 1 and (g not in closed or closed[g][0] != ns[-1][0]):
+                return f"group #{g} (duration = group.skip({d['grp']})) received its {d['grp'] + 1}-th element @{ns[-1][0]} but ended {closed.get(g)}"
     # subscribers: an immediate, never disposed subscriber sees exactly the writer's record; any other a part of it
     if tap:
         slog = {}
@@ -919,6 +942,13 @@ def bucket(case, out):
                                    else "dsync" if nm.startswith("dsync") else nm.rstrip("0123456789"))
     if any("sync" in d for d in case["durs"]) and case["op"] == "grp_until":
         yield "sync-duration-in-pool"
+    if case["op"] == "grp_until":
+        used = {e[2] for e in out["log"] if e[1] == "M"} | {e[2][1] for e in ann}
+        dd = [g for g in used if g < len(case["durs"]) and "grp" in case["durs"][g]]
+        if dd:
+            yield "group-derived-duration"
+            if any(e[1] in ("W", "S") and e[2] in dd and e[3] == ["C"] and any(x[0] == e[0] and x[1] == e[1] and x[2] == e[2] and x[3][0] == "N" for x in out["log"]) for e in out["log"]):
+                yield "group-derived-duration:expired-by-its-element"
     if any(a[1] == "gsub" for a in case["acts"]):
         yield "late-group-subscription"
     if any(a[1] == "gdisp" for a in case["acts"]):
@@ -968,7 +998,8 @@ def shrink(case):
 RULE = ("group cases: hot source (0..12 elements over value pools incl. None/0/False/''/0.0, terminal C/E/none, 15% non-conforming tail) through the "
         "real group_by_until (75%) / group_by (25%) with key tables over 2..8 keys (few / falsy / many / identity-over-mixed so that 0==False==0.0 collide), "
         "optional element tables, raising key/element/subject/duration mappers, a pool of hot duration observables firing N/C/E at the instants of "
-        "elements (both creation orders), between and after, never-firing and synchronously-firing durations, outer disposal, late group "
+        "elements (both creation orders), between and after, never-firing and synchronously-firing durations, durations derived from the group itself "
+        "(g.pipe(skip(n)), n in 0..3, g.pipe(take(1))), outer disposal, late group "
         "subscriptions and group-subscriber disposals at generated times; partition cases: partition / partition_indexed with 2..4 subscriptions "
         "to the two outputs at different times, disposals, raising / non-boolean predicates; re-subscription cases (oracle only): ONE grouped observable over "
         "a cold source subscribed at 200 and again (after the first ended, or overlapping) must record what a fresh pipeline records. Distinct by canonical JSON; non-trivial = at least two "
@@ -992,7 +1023,12 @@ LEVEL_TEXT = ("Lean theorems over the trace machine of group_by_until/group_by (
               "subscribed, output 1 = filter(pred), output 2 = filter(not pred) in source order, both get the terminal, for all element lists. "
               "The model is tied to /repo by differential runs of the real operators on TestScheduler hot timelines (timed global log, "
               "subscription intervals, writer taps) and an independent property oracle.")
-LEVEL_NOTE = ("Model = single-threaded trace machine; callbacks are arbitrary total functions alpha -> Except; key equality is assumed to be an "
+LEVEL_NOTE = ("Durations derived from the group itself (lambda g: g.pipe(ops.skip(n)) / take(1)) are in the model (`stepD`, re-entrant expire() inside "
+              "writer.on_next, nested error-alls, fixed completion loop of fixes/C19_completion_mutates_writers.patch) and in the correspondence; for them "
+              "the proved theorems are the ordering theorem group_announced_before_duration_before_element and derived_duration_counts / "
+              "derived_duration_expires_with_element (local, any state); the invariant-based theorems are proved for the machine `step` = `stepD` without "
+              "group-derived durations (C19.stepD_eq_step / runD_eq_run). "
+              "Model = single-threaded trace machine; callbacks are arbitrary total functions alpha -> Except; key equality is assumed to be an "
               "equivalence (hypotheses of the theorems). PARTIAL: group_routes_to_key_partial assumes, for a group created by the element itself, that its "
               "duration does not fire synchronously inside its own subscribe; the full statement is false of the code (known finding "
               "C19-sync-duration-drops-element): C19.sync_duration_drops_element is the decided counter-example, replayed on the real code (rx.empty() durations). The partition theorems cover the scenario 'both outputs subscribed before the first "
